@@ -245,6 +245,8 @@ def gen_shape_scenario(rng):
     for k in keys:
         if k != gate and rng.random() < 0.55:
             head.append("shape %d %d" % (k, rng.choice([1, 1, 1, 2, 3, 3, 4])))
+        if rng.random() < 0.2:
+            head.append("force %d 1" % k)                      # complete(value, force_change = true): both twins
     vr = {}
     out = []
     for l in L:
@@ -311,6 +313,59 @@ def boundary_ids_oracle(c_trace):
         if ev_index(b, "avail 8") < 0:
             errs.append("%s: inputs_available did not fire" % b["hdr"])
     return errs
+
+
+def scen_force_shape(shape):
+    """`up` (never valid, always completing with force_change=true and a value of the given shape that does not change), dependent `down`"""
+    return ["hexvalues 1", "db 1", nm(1, b"u\0p"), nm(2, b"d\0own"), nm(4, b"u"), "rule 1 sig=0 obs=0", "rule 2 sig=0 obs=0 req=1", "rule 4 sig=0 obs=1",
+            "shape 1 %d" % shape, "validret 1 0", "force 1 1", "build 2", "build 2", "build 2", "restart", "build 2"]
+
+
+def force_shape_oracle(c_trace):
+    """core.h: force_change - treat the value as changed and trigger dependents to rebuild, even if the value itself is not different"""
+    errs, prev = [], None
+    for i, b in enumerate(builds_of(c_trace)):
+        comp = [l for l in b["events"] if l.startswith("complete 1 ")]
+        if not comp:
+            errs.append("%s: `up` (never valid) did not run" % b["hdr"])
+            continue
+        v = comp[0].split(" ")[2]
+        if i > 0 and v == prev and ev_index(b, "create 2") < 0:
+            errs.append("%s: `up` completed with the unchanged value %s and force_change=true, but its dependent `down` did not re-run" % (b["hdr"], v[:40]))
+        prev = v
+    return errs
+
+
+def key_kind_phase(chk, pair):
+    """BuildKey C API (buildkey.h): kind -> identifier -> kind is the identity, identifiers are pairwise distinct and equal the first byte
+    of a key of that kind built through llb_build_key_make_*"""
+    wd = os.path.join(pair.wd, "keykinds")
+    rc, out, err, _, _ = enginelib.run_impl(pair.drv["capi_driver"], ["keykinds"], wd)
+    rows = []
+    for l in out:
+        m = re.match(r"keykind (\d+) ident=(\d+) back=(\d+) first=(-|\d+) getkind=(-|\d+)$", l)
+        if m:
+            rows.append(tuple(None if x == "-" else int(x) for x in m.groups()))
+    errs = []
+    if rc != 0 or len(rows) != 10:
+        errs.append("capi_driver keykinds: exit status %s, %d rows: %s" % (rc, len(rows), err[-300:]))
+    seen = {}
+    for kind, ident, back, first, getkind in rows:
+        chk.count(("keykind", kind))
+        if back != kind:
+            errs.append("kind %d -> identifier %r -> kind %d: not the identity" % (kind, chr(ident), back))
+        if ident in seen:
+            errs.append("kinds %d and %d share the identifier %r" % (seen[ident], kind, chr(ident)))
+        seen.setdefault(ident, kind)
+        if first is not None and first != ident:
+            errs.append("identifier of kind %d is %r but a key of that kind built through llb_build_key_make_* starts with %r" % (kind, chr(ident), chr(first)))
+        if getkind is not None and getkind != kind:
+            errs.append("llb_build_key_get_kind of a key made for kind %d answers %d" % (kind, getkind))
+    chk.cov["key_kinds_checked"] = len(rows)
+    if errs:
+        chk.violation("capi-key-kind-table", "the BuildKey C API's kind/identifier table is inconsistent: %s" % errs[0],
+                      dict(mode="keykinds", scenario=["keykinds"], errors=errs, table=out), found_input=True,
+                      broken="C20 oracle: llb_build_key_identifier_for_kind / kind_for_identifier / make_* agree for every public kind")
 
 
 def valid_effect_oracle(lines, c_trace):
@@ -934,6 +989,17 @@ def run_params(chk, pair, cov):
         chk.violation("capi-is-result-valid-effect", "is_result_valid was consulted %d times for the rule whose stored value is empty (expected on every later scan)" % nstamp,
                       dict(mode="shape-empty-value", scenario=L, c_trace=[l[:200] for l in res["c"][:300]]), found_input=True,
                       broken="C20 oracle: is_result_valid consulted for every stored result")
+    # ---- force_change with values of every shape (EMPTY, one byte, all NUL, 4 KiB, 16 bytes): C++ twin comparison + documented effect
+    for shape in (1, 2, 3, 4, 0):
+        L = scen_force_shape(shape)
+        res = run_shape(chk, pair, L, "shape-force", cov)
+        errs = force_shape_oracle(res["c"])
+        cov["forced_shape_completions"] += sum(1 for l in res["c"] if l.startswith("complete 1 "))
+        if errs:
+            chk.violation("capi-force-change", "force_change=true on llb_buildengine_task_is_complete does not have its documented effect for a value of shape `%s`: %s" % (SHAPES[shape], errs[0]),
+                          dict(mode="shape-force", scenario=L, errors=errs[:10], c_trace=[l[:200] for l in res["c"][:200]]), found_input=True,
+                          broken="C20 oracle: force_change (core.h: treat the value as changed and trigger dependents to rebuild)")
+    key_kind_phase(chk, pair)
     # ---- a build abandoned on a cycle followed by more builds on the SAME engine: update_status compared exactly with the C++ twin
     L, root = scen_cycle_repair()
     res = run_shape(chk, pair, L, "shape-cycle-repair", cov)
@@ -1061,9 +1127,15 @@ def replay(chk, rp):
     chk.count(("replay", "\n".join(L)))
     if mode == "threads":
         run_threads(chk, pair, L, cov)
+    elif mode == "keykinds":
+        key_kind_phase(chk, pair)
     elif mode.startswith("shape"):
         res = run_shape(chk, pair, L, mode, cov)
         print("\n".join(l[:160] for l in res["c"]))
+        if mode == "shape-force":
+            for e in force_shape_oracle(res["c"]):
+                chk.violation("capi-force-change", e, dict(mode=mode, scenario=L), found_input=True, broken="C20 oracle: force_change")
+                break
     elif mode.startswith("param-force"):
         force = int(mode[-1])
         res = pair.run(L, only="c")
